@@ -4,6 +4,7 @@ import (
 	"encoding/json"
 	"flag"
 	"fmt"
+	"golang.org/x/tools/go/ssa"
 	"os"
 	"os/exec"
 	"path/filepath"
@@ -42,18 +43,18 @@ func loadKnown() []KnownFinding {
 }
 
 type oblRecord struct {
-	Name     string            `json:"name"`
-	Kind     string            `json:"kind"`
-	Func     string            `json:"func"`
-	Clause   string            `json:"clause,omitempty"`
-	Pos      string            `json:"pos,omitempty"`
-	Verdict  string            `json:"verdict"`
-	Status   string            `json:"status"` // discharged failed undecided known-finding vacuity-ok
-	Solver   string            `json:"solver,omitempty"`
-	TimeS    float64           `json:"time_s"`
-	Raw      map[string]string `json:"solvers,omitempty"`
-	Confirm  string            `json:"confirmed_by,omitempty"`
-	Claimed  bool              `json:"claimed"`
+	Name    string            `json:"name"`
+	Kind    string            `json:"kind"`
+	Func    string            `json:"func"`
+	Clause  string            `json:"clause,omitempty"`
+	Pos     string            `json:"pos,omitempty"`
+	Verdict string            `json:"verdict"`
+	Status  string            `json:"status"` // discharged failed undecided known-finding vacuity-ok
+	Solver  string            `json:"solver,omitempty"`
+	TimeS   float64           `json:"time_s"`
+	Raw     map[string]string `json:"solvers,omitempty"`
+	Confirm string            `json:"confirmed_by,omitempty"`
+	Claimed bool              `json:"claimed"`
 }
 
 func main() {
@@ -143,13 +144,13 @@ func cmdDump(args []string) int {
 }
 
 type checkResult struct {
-	records   []oblRecord
-	reports   []*FuncReport
-	funcs     []string
-	errors    []string
-	loadS     float64
-	genS      float64
-	solveS    float64
+	records []oblRecord
+	reports []*FuncReport
+	funcs   []string
+	errors  []string
+	loadS   float64
+	genS    float64
+	solveS  float64
 }
 
 // runCheck verifies every function and lemma tagged with the property.
@@ -238,6 +239,28 @@ func runCheck(P *Program, DB *ContractDB, prop, tier string, only string) *check
 	}
 	for _, cs := range DB.CallSites {
 		if hasProp(cs.Props) && only == "" {
+			// functions that contain such a call site but have no contract are verified
+			// with an implicit empty contract: the callee's requires-clauses decide
+			for _, fname := range callSiteOwners(P, cs) {
+				if k := DB.Funcs[fname]; k != nil {
+					continue
+				}
+				k := &FuncContract{Kind: "func", Name: fname, Pkg: pkgOfQual(fname), Props: []string{prop}, Flags: map[string]bool{"implicit": true}, Loops: map[int]*LoopSpec{}, ModAll: true, HasMod: true}
+				DB.Funcs[fname] = k
+				var rep *FuncReport
+				func() {
+					defer func() {
+						if r := recover(); r != nil {
+							res.errors = append(res.errors, fmt.Sprintf("engine-error in %s: %v", fname, r))
+						}
+					}()
+					rep = VerifyFunc(P, DB, P.Funcs[fname], k, prop)
+				}()
+				if rep != nil {
+					rep.Func += " (implicit contract)"
+					addRep(rep)
+				}
+			}
 			addRep(VerifyCallSites(P, DB, cs, prop))
 		}
 	}
@@ -544,24 +567,24 @@ func writeEvidenceFile(P *Program, DB *ContractDB, res *checkResult, prop, tier 
 		"violations":  nviol,
 		"assumptions": assumptions,
 		"coverage": map[string]any{
-			"obligations":        nObl,
-			"discharged":         nDis,
-			"failed":             nFailed,
-			"known_findings":     nKnown,
-			"undecided_unclaimed": nUndecided,
-			"vacuity_probes_ok":  nVac,
-			"checker_cmd":        fmt.Sprintf("/verif/bin/govc check -property %s -tier %s", prop, tier),
-			"trusted_base":       []string{"go/packages + go/ssa (x/tools v0.29.0) SSA construction", "govc VC generator (this repository, /verif/engine)", "z3 5.1.0 (z3-new), z3 4.8.12, cvc5 1.0.3", "axioms and ext/iface contracts in /verif/specs and contracts_verif.go (listed under assumptions)"},
+			"obligations":              nObl,
+			"discharged":               nDis,
+			"failed":                   nFailed,
+			"known_findings":           nKnown,
+			"undecided_unclaimed":      nUndecided,
+			"vacuity_probes_ok":        nVac,
+			"checker_cmd":              fmt.Sprintf("/verif/bin/govc check -property %s -tier %s", prop, tier),
+			"trusted_base":             []string{"go/packages + go/ssa (x/tools v0.29.0) SSA construction", "govc VC generator (this repository, /verif/engine)", "z3 5.1.0 (z3-new), z3 4.8.12, cvc5 1.0.3", "axioms and ext/iface contracts in /verif/specs and contracts_verif.go (listed under assumptions)"},
 			"functions_under_contract": res.funcs,
-			"solver_time_s":      solverTime,
-			"smt_bytes":          smtBytes,
-			"integers":           "int/int64/uint64 are mathematical integers (no 64-bit overflow, assumption arith64-no-overflow) unless the function is flagged overflow-checked; narrower types wrap mod 2^k explicitly",
-			"samples":            samples,
-			"obligation_records": recs,
-			"warnings":           warnings,
-			"load_s":             res.loadS,
-			"gen_s":              res.genS,
-			"solve_s":            res.solveS,
+			"solver_time_s":            solverTime,
+			"smt_bytes":                smtBytes,
+			"integers":                 "int/int64/uint64 are mathematical integers (no 64-bit overflow, assumption arith64-no-overflow) unless the function is flagged overflow-checked; narrower types wrap mod 2^k explicitly",
+			"samples":                  samples,
+			"obligation_records":       recs,
+			"warnings":                 warnings,
+			"load_s":                   res.loadS,
+			"gen_s":                    res.genS,
+			"solve_s":                  res.solveS,
 		},
 	}
 	os.MkdirAll(filepath.Join(VerifDir, "evidence"), 0o755)
@@ -580,8 +603,6 @@ func extraAssumptions(prop string) []string {
 	}
 	return append(m["*"], m[prop]...)
 }
-
-
 
 type replayScenario struct {
 	Match  string `json:"match"`
@@ -639,8 +660,8 @@ func runScenario(sc replayScenario) (output string, failed bool, cmdline string)
 	}
 	defer os.RemoveAll(tmp)
 	ov := map[string]map[string]string{"Replace": {
-		filepath.Join(RepoDir, "quic", "quic.go"):    filepath.Join(VerifDir, "replay", "quicstub", "quic.go"),
-		filepath.Join(RepoDir, "quic", "inherit.go"): filepath.Join(VerifDir, "replay", "quicstub", "inherit.go"),
+		filepath.Join(RepoDir, "quic", "quic.go"):                   filepath.Join(VerifDir, "replay", "quicstub", "quic.go"),
+		filepath.Join(RepoDir, "quic", "inherit.go"):                filepath.Join(VerifDir, "replay", "quicstub", "inherit.go"),
 		filepath.Join(RepoDir, sc.PkgDir, "zz_govc_replay_test.go"): filepath.Join(VerifDir, "replay", "scenarios", sc.File),
 	}}
 	ob, _ := json.Marshal(ov)
@@ -671,7 +692,7 @@ type Canary struct {
 	ID       string       `json:"id"`
 	Property string       `json:"property"`
 	Edits    []canaryEdit `json:"edits"`
-	Expect   string       `json:"expect"` // substring of the obligation that must fail
+	Expect   string       `json:"expect"`   // substring of the obligation that must fail
 	Harmless bool         `json:"harmless"` // harmless edit: nothing may fail
 	Note     string       `json:"note"`
 }
@@ -865,4 +886,40 @@ func cmdReplay(args []string) int {
 		}
 	}
 	return rc
+}
+
+func callSiteOwners(P *Program, cs *CallSitesDecl) []string {
+	var out []string
+	for _, fname := range sortedKeys(P.Funcs) {
+		fn := P.Funcs[fname]
+		found := false
+		for _, b := range fn.Blocks {
+			for _, in := range b.Instrs {
+				if ci, ok := in.(ssa.CallInstruction); ok {
+					if callee := ci.Common().StaticCallee(); callee != nil && cs.Callees[calleeName(callee)] {
+						found = true
+					}
+				}
+			}
+		}
+		if found {
+			out = append(out, fname)
+		}
+	}
+	return out
+}
+
+func pkgOfQual(q string) string {
+	// "plugin/proxy.(*proxy).call" -> "plugin/proxy"; "erpc.NewPeer" -> "erpc"
+	i := strings.Index(q, ".(")
+	if i < 0 {
+		i = strings.LastIndex(q, ".")
+		if j := strings.Index(q, "$"); j >= 0 {
+			i = strings.LastIndex(q[:j], ".")
+		}
+	}
+	if i < 0 {
+		return q
+	}
+	return q[:i]
 }
